@@ -719,8 +719,9 @@ class BGP(protocol.Protocol):
                     value = copy.deepcopy(attr)
                     value14 = value[14]
                     del value14['nlri']
+                    value14['label'] = prefix.get('label')
                     key = "{"
-                    for k in sorted(prefix.keys()):
+                    for k in sorted(k for k in prefix.keys() if k != 'label'):
                         key += '"' + str(k) + '"'
                         key += ':'
                         key += '"' + str(prefix[k]) + '"'
@@ -773,7 +774,7 @@ class BGP(protocol.Protocol):
                 LOG.info("withdraw mpls_vpn")
                 for prefix in attr[15]['withdraw']:
                     key = "{"
-                    for k in sorted(prefix.keys()):
+                    for k in sorted(k for k in prefix.keys() if k != 'label'):
                         key += '"' + str(k) + '"'
                         key += ':'
                         key += '"' + str(prefix[k]) + '"'
@@ -819,8 +820,9 @@ class BGP(protocol.Protocol):
                     value = copy.deepcopy(attr)
                     value14 = value[14]
                     del value14['nlri']
+                    value14['label'] = prefix.get('label')
                     key = "{"
-                    for k in sorted(prefix.keys()):
+                    for k in sorted(k for k in prefix.keys() if k != 'label'):
                         key += '"' + str(k) + '"'
                         key += ':'
                         key += '"' + str(prefix[k]) + '"'
@@ -860,7 +862,7 @@ class BGP(protocol.Protocol):
                 LOG.info("recieve withdraw mpls_vpn")
                 for prefix in attr[15]['withdraw']:
                     key = "{"
-                    for k in sorted(prefix.keys()):
+                    for k in sorted(k for k in prefix.keys() if k != 'label'):
                         key += '"' + str(k) + '"'
                         key += ':'
                         key += '"' + str(prefix[k]) + '"'
